@@ -62,6 +62,9 @@ struct Obl
     /// interchangeable deliveries, see `check_boundary`).
     postponed_at: usize,
     run_at: usize,
+    /// The window rule (C09) has been reported for this postponed delivery; it stays postponed so that what happens to
+    /// it later (replayed late, discarded at the root, never run) is still judged by the exactly-once rules (C02).
+    window_reported: bool,
 }
 
 #[derive(Clone, Debug)]
@@ -469,7 +472,7 @@ impl<'a> Monitor<'a>
                         actor: r.actor, kind: Kind::Despawn, source: Some(Name::Ent(e)), payload: None,
                         creator: self.cur_cmd().unwrap_or(CmdId{ by: Issuer::Top, idx: u16::MAX }),
                         created_at: at, polled: true, state: OState::Created, optional, holds_group: holds, seq,
-                        postponed_on: None, run: None, postponed_at: 0, run_at: 0,
+                        postponed_on: None, run: None, postponed_at: 0, run_at: 0, window_reported: false,
                     });
                 }
                 t if t.entity() == Some(e) => { self.regs[i].live = false; }
@@ -510,7 +513,7 @@ impl<'a> Monitor<'a>
         let seq = self.obls.len();
         self.obls.push(Obl{
             actor, kind, source, payload, creator: cmd, created_at: self.pos, polled: false,
-            state: OState::Created, optional, holds_group: None, seq, postponed_on: None, run: None, postponed_at: 0, run_at: 0,
+            state: OState::Created, optional, holds_group: None, seq, postponed_on: None, run: None, postponed_at: 0, run_at: 0, window_reported: false,
         });
         if let Some(p) = payload
         {
@@ -965,7 +968,7 @@ impl<'a> Monitor<'a>
                 OState::Postponed =>
                 {
                     // legitimate only while the target is still executing
-                    if self.busy(o.actor) { continue; }
+                    if self.busy(o.actor) || o.window_reported { continue; }
                     bad.push((i, "postponed-not-replayed"));
                 }
                 OState::Reached | OState::Running | OState::Exited => bad.push((i, "still-open")),
@@ -1027,7 +1030,8 @@ impl<'a> Monitor<'a>
         {
             let o = self.obls[i].clone();
             // report once
-            self.obls[i].state = OState::Cancelled;
+            if why == "postponed-not-replayed" { self.obls[i].window_reported = true; }
+            else { self.obls[i].state = OState::Cancelled; }
             let (prop, rule) = match (why, o.kind)
             {
                 ("unreached", Kind::Manual) | ("unreached", Kind::SysEvent) => ("C02", "R-once"),
